@@ -110,6 +110,13 @@ def kinds(effects=("AO",)):
             lambda k: And(Call("g", V("r" + k, "sub"), V("p" + k, "sub"), V("r" + k, "dom")),
                           Eq(V("r" + k, "dom"), V("p" + k, "dom")), Eq(V("r" + k, "obj"), V("p" + k, "obj")),
                           Eq(V("r" + k, "act"), V("p" + k, "act"))), g={"g": 3}, dom=True)
+    if "AO" in effects:
+        # allow-override with an explicit effect column: a matching deny rule stored before a matching allow rule must not
+        # end the evaluation (allow-override completes early only on an allow)
+        add("acl_AOe", SOA, SOAE, "AO", lambda k: eq3(k))
+        add("rbac_AOe", SOA, SOAE, "AO",
+            lambda k: And(Call("g", V("r" + k, "sub"), V("p" + k, "sub")), Eq(V("r" + k, "obj"), V("p" + k, "obj")),
+                          Eq(V("r" + k, "act"), V("p" + k, "act"))), g={"g": 2})
     add("no_users", ["obj", "act"], ["obj", "act"], "AO",
         lambda k: And(Eq(V("r" + k, "obj"), V("p" + k, "obj")), Eq(V("r" + k, "act"), V("p" + k, "act"))))
     add("no_resources", ["sub", "act"], ["sub", "act"], "AO",
